@@ -133,7 +133,13 @@ class Scaffold:
         while True:
             try:
                 this = next(itr)
-                junctions.add(prev.junction_tuple(this))
+                jt = prev.junction_tuple(this)
+                if type(jt[0]) is type(jt[3]):
+                    # fwd-rev and rev-fwd junctions read the same from either
+                    # side, so store them in one canonical direction or a
+                    # reversed scaffold would appear to have new junctions
+                    jt = min(jt, jt[::-1])
+                junctions.add(jt)
                 prev = this
             except StopIteration:
                 break
